@@ -8,10 +8,16 @@ LEVEL = "proof"
 KEYS = [k for k, c in FUNCS.items() if "C43" in c.props]
 
 
+def _more_bounded(run, tier, seed):
+    import importlib
+    importlib.import_module('checks.C43_bounded').bounded(run, tier, seed)
+
+
 def run(run, tier, seed, args):
     run_proofs(run, KEYS, tier, update_baseline=args.update_baseline, source_root=args.source_root)
     if not args.source_root:
         run_bounded(run, KEYS, tier)
+        _more_bounded(run, tier, seed)
     run.assumptions += [
         "SQL three-valued logic as the standard defines it (AND/OR/NOT truth tables) is the oracle",
         "sub-evaluators are pure callables returning None/True/False/_EXPIRED_OBJECT; _NO_OBJECT inputs are not judged",
